@@ -6,6 +6,9 @@ pub mod c03;
 pub mod c04;
 pub mod c05;
 pub mod c06;
+pub mod c10;
+pub mod c11;
+pub mod c12;
 pub mod c16;
 pub mod c19;
 
@@ -17,6 +20,9 @@ pub fn table() -> Vec<Prop> {
         Prop { id: "C04", run: c04::run, replay: c04::replay },
         Prop { id: "C05", run: c05::run, replay: c05::replay },
         Prop { id: "C06", run: c06::run, replay: c06::replay },
+        Prop { id: "C10", run: c10::run, replay: c10::replay },
+        Prop { id: "C11", run: c11::run, replay: c11::replay },
+        Prop { id: "C12", run: c12::run, replay: c12::replay },
         Prop { id: "C16", run: c16::run, replay: c16::replay },
         Prop { id: "C19", run: c19::run, replay: c19::replay },
     ]
